@@ -5,7 +5,11 @@ import (
 	"bytes"
 	"context"
 	"fmt"
+	"sync"
 	"testing"
+	"time"
+
+	"github.com/gebn/bmc"
 
 	"github.com/gebn/bmc/pkg/ipmi"
 	"pgregory.net/rapid"
@@ -15,6 +19,7 @@ import (
 	"verif/harness/memnet"
 	"verif/harness/ref"
 	"verif/harness/simbmc"
+	"verif/harness/udpnet"
 )
 
 var ev *evid.E
@@ -24,7 +29,7 @@ func TestMain(m *testing.M) {
 		"per-attempt outcome scripts over {final code 0, final non-zero code, final with truncated body, node busy 0xC0, timeout 0xC3, garbage, bad signature (in-session), lost reply}: "+
 			"every prefix of non-terminal outcomes up to the stated depth followed by every terminal outcome or by context expiry, for a session-less command, an in-session command and "+
 			"each handshake payload; the real library's transmission count, return values and every transmitted datagram are compared with a reference model of the documented "+
-			"Connection.SendCommand contract. Non-trivial = at least one retransmission; distinct by (mode, command, script)")
+			"Connection.SendCommand contract; a hook-free variant over real UDP with the real clock and back-off drops the first 1-2 replies of a session-less command and of each handshake payload. Non-trivial = at least one retransmission; distinct by (mode, command, script)")
 	ev.Assume("context expiry is produced by cancelling the context inside the last scripted transmission; the in-memory transport then refuses further sends like an expired write deadline",
 		"wall-clock spacing of retries is not modelled")
 	evid.Main(m, ev)
@@ -344,6 +349,103 @@ func TestEnumeratedHandshake(t *testing.T) {
 	ev.Label("handshake-enumeration-complete")
 }
 
+// TestUDPLostThenAnswered runs over real UDP with the real clock and back-off: a
+// request whose first k replies are lost (k full per-attempt timeouts pass) must
+// still be re-sent, unchanged, and the answer to the retransmission returned.
+func TestUDPLostThenAnswered(t *testing.T) {
+	type ucase struct {
+		step uint8 // payload type whose replies are dropped, 0 = a session-less command
+		k    int
+	}
+	var cases []ucase
+	for _, st := range []uint8{0, ref.PTOpenReq, ref.PTRAKP1, ref.PTRAKP3} {
+		for _, k := range []int{1, 2} {
+			cases = append(cases, ucase{st, k})
+		}
+	}
+	var wg sync.WaitGroup
+	var mu sync.Mutex
+	var firstMsg string
+	for i, c := range cases {
+		i, c := i, c
+		wg.Add(1)
+		go func() {
+			defer wg.Done()
+			msg := func() string {
+				cr := hx.Creds{User: "admin", Password: []byte("pw"), Priv: 4, Suite: hx.Suites9()[(i+int(ev.Seed))%9], Seed: uint64(ev.Seed)*13 + uint64(i)}
+				b := simbmc.New(cr.Seed)
+				cr.Install(b)
+				srv, err := udpnet.Listen(b)
+				if err != nil {
+					return ""
+				}
+				defer srv.Close()
+				var seen [][]byte
+				dropped := 0
+				srv.Arm(func(rx *simbmc.Rx) []udpnet.Reply {
+					match := rx.Pkt != nil && ((c.step == 0 && rx.Pkt.PayloadType == ref.PTIPMI) || (c.step != 0 && rx.Pkt.PayloadType == c.step))
+					if match {
+						seen = append(seen, rx.Raw)
+						if dropped < c.k {
+							dropped++
+							return nil
+						}
+					}
+					var out []udpnet.Reply
+					for _, o := range rx.Replies {
+						out = append(out, udpnet.Reply{Data: o.Data})
+					}
+					return out
+				})
+				tr, err := bmc.DialV2(srv.Addr(), bmc.WithTimeout(80*time.Millisecond))
+				if err != nil {
+					return ""
+				}
+				defer tr.Close()
+				ctx, cancel := context.WithTimeout(context.Background(), 20*time.Second)
+				defer cancel()
+				if c.step == 0 {
+					_, err = tr.GetSystemGUID(ctx)
+				} else {
+					_, err = tr.NewV2Session(ctx, cr.Opts())
+				}
+				srv.Lock()
+				defer srv.Unlock()
+				where := fmt.Sprintf("UDP, replies to the first %d transmissions of payload type %#x lost", c.k, c.step)
+				if err != nil {
+					return fmt.Sprintf("%s: call failed although the BMC answered transmission %d: %v (BMC saw %d transmissions)", where, c.k+1, err, len(seen))
+				}
+				if len(seen) != c.k+1 {
+					return fmt.Sprintf("%s: BMC saw %d transmissions, want %d", where, len(seen), c.k+1)
+				}
+				for j := 1; j < len(seen); j++ {
+					if !bytes.Equal(seen[j], seen[0]) {
+						return fmt.Sprintf("%s: retransmission %d differs from the first transmission", where, j)
+					}
+				}
+				if p := b.AllProblems(); len(p) > 0 {
+					return fmt.Sprintf("%s: malformed datagrams: %v", where, p)
+				}
+				return ""
+			}()
+			mu.Lock()
+			defer mu.Unlock()
+			ev.Eval()
+			ev.NonTrivial(fmt.Sprintf("udp|%d|%d", c.step, c.k))
+			ev.Label("retried:udp")
+			if msg != "" && firstMsg == "" {
+				firstMsg = msg
+				ev.Violation("TestUDPLostThenAnswered", map[string]any{"payloadType": c.step, "lost": c.k}, msg)
+			}
+		}()
+	}
+	wg.Wait()
+	if firstMsg != "" {
+		t.Fatalf("%s", firstMsg)
+	}
+	ev.Sample(map[string]any{"mode": "udp", "cases": len(cases)})
+}
+
 func TestCoverage(t *testing.T) {
-	ev.RequireLabels(t, 1, "enumeration-complete", "handshake-enumeration-complete", "retried:inSession=true", "retried:inSession=false", "retried:handshake")
+	ev.RequireLabels(t, 1, "enumeration-complete", "handshake-enumeration-complete", "retried:inSession=true", "retried:inSession=false", "retried:handshake", "retried:udp")
 }
